@@ -237,6 +237,9 @@ fn build(rng: &mut Rng, must: usize) -> Option<Built> {
     let terminators = ["Branch", "BranchConditional", "Return", "ReturnValue", "Kill", "Unreachable", "TerminateInvocation", "IgnoreIntersectionKHR", "TerminateRayKHR", "EmitMeshTasksEXT"];
     for fi in 0..n_funcs {
         let (fty, ret) = *rng.pick(&fn_types);
+        // the result type an OpFunction names is its own operand: one function in three names another type
+        // than the return type of its function type (the lifted function keeps what the instruction says)
+        let ret = if rng.chance(1, 3) { *rng.pick(&all_types) } else { ret };
         let control = rng.u32() & 0xf;
         insts.push(AInst::named("Function", Some(ret), Some(gen.fresh()), vec![AOp::w(K::FunctionControl, control), AOp::id(fty)]));
         let mut blocks = vec![];
